@@ -401,7 +401,7 @@ class Ctx:
             self.prog('symcc' if self.pid == 'C18' else 'core')      # index the dump once, before forking
         tmpd = tempfile.mkdtemp(prefix='fam-', dir=BUILD)
         pending = list(enumerate(fams))
-        running, done = {}, {}
+        running, done, timed_out = {}, {}, set()
         sys.stdout.flush()
         while pending or running:
             while pending and len(running) < jobs:
@@ -443,10 +443,27 @@ class Ctx:
                     finally:
                         sys.stdout.flush()
                         os._exit(code)
-                running[pid] = (idx, name, out)
-            pid, status = os.wait()
+                running[pid] = (idx, name, out, time.time())
+            # wait for a worker; a family that runs past the cap (path explosion on a changed tree) is stopped and reported as a machinery problem (exit 2), never as a pass
+            cap = float(os.environ.get('VERIF_FAMILY_CAP', '0') or 0) or (5400.0 if self.tier == 'thorough' else 900.0)
+            while True:
+                pid, status = os.waitpid(-1, os.WNOHANG)
+                if pid:
+                    break
+                now = time.time()
+                for p_, (_, nm_, _, t0_) in list(running.items()):
+                    if now - t0_ > cap and p_ not in timed_out:
+                        timed_out.add(p_)
+                        try:
+                            os.kill(p_, 9)
+                        except OSError:
+                            pass
+                time.sleep(0.2)
             if pid in running:
-                idx, name, out = running.pop(pid)
+                idx, name, out, _t0 = running.pop(pid)
+                if pid in timed_out:
+                    done[idx] = (name, {'crash': f'family stopped after {cap:.0f} s (VERIF_FAMILY_CAP): no verdict for its obligations'})
+                    continue
                 try:
                     done[idx] = (name, pickle.load(open(out, 'rb')))
                 except Exception as e:
